@@ -107,10 +107,18 @@ fn c03_exhaustive(thorough: bool, out: &mut Sink, slot: &mut usize) {
     let alphabet = ['a', 'b', 'c'];
     let kmax = if thorough { 3 } else { 2 };
     let lmax = if thorough { 7 } else { 5 };
-    let strings: Vec<String> = all_strings(&alphabet, lmax).into_iter().filter(|s| !s.is_empty()).collect();
+    let strings_long: Vec<String> = all_strings(&alphabet, lmax).into_iter().filter(|s| !s.is_empty()).collect();
+    let strings_short: Vec<String> = strings_long.iter().filter(|s| s.len() <= 5).cloned().collect();
     let seqs = merge_sequences(&alphabet, kmax);
     let mut nv = 0;
     for (si, seq) in seqs.iter().enumerate() {
+        // thorough: every sequence of up to two merges with the long strings, every 8th sequence of three merges
+        // with strings up to length 5 (3244 sequences x 6558 pieces would be 4 * 10^7 cases)
+        if seq.len() == 3 && si % 8 != 0 {
+            continue;
+        }
+        let strings = if seq.len() == 3 { &strings_short } else { &strings_long };
+        let lmax = if seq.len() == 3 { 5 } else { lmax };
         // thorough: every sequence; quick: every sequence of <= 2 merges
         let mut tokens: Vec<String> = vec!["a".into(), "b".into(), "c".into(), "z".into()];
         // merges first in rank order = merge priority, then the letters (rank of letters is irrelevant)
@@ -126,7 +134,7 @@ fn c03_exhaustive(thorough: bool, out: &mut Sink, slot: &mut usize) {
             *slot += 1;
             nv += 1;
             let mut pieces = Vec::with_capacity(strings.len() * 2);
-            for s in &strings {
+            for s in strings.iter() {
                 pieces.push(s.clone());
                 // the same string behind more than 192 inert units forces the long-piece strategy
                 if thorough || s.len() >= lmax - 1 {
@@ -139,8 +147,8 @@ fn c03_exhaustive(thorough: bool, out: &mut Sink, slot: &mut usize) {
     }
     out.add("c03_exhaustive_vocabularies", nv);
     out.exhaustive.push(format!(
-        "BPE: every ordered choice of up to {} merges over {{a,b,c}} x all strings of length 1..{} (long-padded copies: {})",
-        kmax,
+        "BPE: every ordered choice of up to {} merges over {{a,b,c}} x all strings of length 1..{} (long-padded copies: {}); thorough adds every 8th choice of 3 merges x strings up to length 5",
+        kmax.min(2),
         lmax,
         if thorough { "all" } else { "lengths >= 4" }
     ));
